@@ -32,7 +32,95 @@ def n_cases(tier):
     return N[tier]
 
 
+VAR_T = {"int": ([1, 0, -3, "5", 2.0], ["x", None, [1], 1.5, "1.5"]), "posint": ([1, "5", 7], ["x", -1, 0, None]),
+         "str": (["a", "", 1], [None, [1], {"a": 1}])}
+VAR_SRC = """
+import utype
+from utype import Options, Field, Rule
+class PosInt(int, Rule):
+    gt = 0
+T = {"int": int, "posint": PosInt, "str": str}
+def make(opts, ta, tr, tk):
+    @utype.parse(options=Options(**opts))
+    def fn(a: T[ta], *rest: T[tr], **kw: T[tk]):
+        return a, rest, kw
+    return fn
+"""
+
+
+def make_varargs_case(rng):
+    ta, tr, tk = (rng.choice(list(VAR_T)) for _ in range(3))
+    opts = {}
+    if rng.random() < 0.3:
+        opts["invalid_values"] = rng.choice(["exclude", "preserve"])
+    calls = []
+    for _ in range(5):
+        def pick(t, bad):
+            return rng.choice(VAR_T[t][1] if bad else VAR_T[t][0])
+        a = pick(ta, rng.random() < 0.25)
+        rest = [pick(tr, rng.random() < 0.3) for _ in range(rng.randint(0, 4))]
+        kw = {k: pick(tk, rng.random() < 0.3) for k in rng.sample(["k1", "k2", "k3"], rng.randint(0, 3))}
+        calls.append((a, rest, kw))
+    return {"varargs": True, "types": (ta, tr, tk), "opts": opts, "calls": calls}
+
+
+def run_varargs(case, ctx):
+    """@parse function with *args: T and **kwargs: T: collecting must not change the verdict, the arguments the body receives,
+    nor report a different number of failing arguments than fail one by one"""
+    from utype.utils import exceptions as exc
+    ns = {}
+    exec(VAR_SRC, ns)
+    ta, tr, tk = case["types"]
+    opts = case["opts"]
+    try:
+        f0 = ns["make"](dict(opts), ta, tr, tk)
+        f1 = ns["make"](dict(opts, collect_errors=True), ta, tr, tk)
+    except Exception as e:
+        ctx.count("declaration_rejected:" + type(e).__name__)
+        return
+    va, vr, vk = VAR_T[ta][0][0], VAR_T[tr][0][0], VAR_T[tk][0][0]
+    for a, rest, kw in case["calls"]:
+        x = run(lambda: f0(a, *rest, **kw))
+        y = run(lambda: f1(a, *rest, **kw))
+        ctx.count("inputs")
+        if x.kind not in ("ok", "parse") or y.kind not in ("ok", "parse"):
+            ctx.count("escape_left_to_C04")
+            continue
+        failing = 0
+        if not run(lambda: f0(a)).ok:
+            failing += 1
+        for r in rest:
+            if not run(lambda: f0(va, r)).ok:
+                failing += 1
+        for k, v in kw.items():
+            if not run(lambda: f0(va, **{k: v})).ok:
+                failing += 1
+        wit = {"function": f"fn(a: {ta}, *rest: {tr}, **kw: {tk}) options={opts}", "call": short((a, rest, kw), 200), "fail_fast": repr(x), "collect_errors": repr(y),
+               "arguments_failing_alone": failing}
+        sig = ("varargs", ta, tr, tk, tuple(sorted(opts.items())), failing, len(rest), len(kw))
+        if x.ok != y.ok:
+            ctx.violation("C10/verdict-changes/" + ("collect-accepts-what-fail-fast-rejects" if y.ok else "collect-rejects-what-fail-fast-accepts"),
+                          f"{wit['function']} call {wit['call']}: fail-fast -> {x!r}; collect_errors -> {y!r}", wit, sig=sig)
+        elif x.ok != (failing == 0):
+            ctx.violation("C10/verdict-vs-probes/" + ("accepted-though-an-item-fails-alone" if x.ok else "rejected-though-every-item-passes-alone"),
+                          f"{wit['function']} call {wit['call']}: {x!r} but {failing} argument(s) fail alone", wit, sig=sig)
+        elif x.ok:
+            if not V.approx_eq(x.value, y.value):
+                ctx.violation("C10/value-changes", f"{wit['function']} call {wit['call']}: fail-fast {short(x.value, 100)} != collect {short(y.value, 100)}", wit, sig=sig)
+            else:
+                ctx.trivial("accepted")
+        elif not isinstance(y.exc, exc.CollectedParseError):
+            ctx.violation("C10/report/not-one-CollectedParseError", f"{wit['function']} call {wit['call']}: collect_errors raised {y!r}", wit, sig=sig)
+        elif len(y.exc.errors) != failing:
+            ctx.violation("C10/report/failing-item-not-reported" if len(y.exc.errors) < failing else "C10/report/valid-item-reported",
+                          f"{wit['function']} call {wit['call']}: {failing} argument(s) fail alone, {len(y.exc.errors)} reported: {y!r}", wit, sig=sig)
+        else:
+            ctx.held(sig)
+
+
 def make_case(i, rng, tier):
+    if i % 8 == 7:
+        return make_varargs_case(rng)
     base = rng.choice(["Schema", "Schema", "DataClass", "function"])
     n = rng.randint(2, 5)
     fields = []
@@ -57,6 +145,17 @@ def make_case(i, rng, tier):
         opts["data_first_search"] = True
     elif r < 0.6:
         opts["data_first_search"] = False
+    # error policies decide what "fails" (the singleton probes run under the same options); collecting must still not change it
+    if rng.random() < 0.3:
+        opts["invalid_values"] = rng.choice(["exclude", "exclude", "preserve"])
+    if rng.random() < 0.15:
+        opts["invalid_items"] = rng.choice(["exclude", "preserve"])
+    if rng.random() < 0.1:
+        opts["invalid_keys"] = rng.choice(["exclude", "preserve"])
+    if base != "function" and rng.random() < 0.25:
+        for f in fields:
+            if f["default"] is not D.NODEF and rng.random() < 0.5:
+                f["on_error"] = rng.choice(["exclude", "preserve", "throw"])
     decl = {"base": base, "options": opts, "fields": fields}
     inputs = []
     for _ in range(5):
@@ -101,6 +200,8 @@ def field_of(decl, item):
 
 
 def run_case(case, ctx):
+    if case.get("varargs"):
+        return run_varargs(case, ctx)
     decl = case["decl"]
     built = []
     try:
